@@ -20,7 +20,8 @@ From Coq Require Import ZArith List Sorting.Permutation Sorting.Sorted.
 Open Scope Z_scope.
 
 (* For every byte string (shorter than 2^31) every parser returns a value or nothing: no
-   panic site of the model is reachable and no loop runs out of fuel. *)
+   panic site of the model is reachable and no loop runs out of fuel; merge has no panic site;
+   get_info / take_info panic only on more than i32::MAX collected clients (`assert_i32`). *)
 Theorem C18_total : forall bs, datagram_ok bs = true ->
   ok_or_err (parse_response bs)
   /\ (forall k, ok_or_err (parse_info k bs))
@@ -28,7 +29,9 @@ Theorem C18_total : forall bs, datagram_ok bs = true ->
         ok_or_err (parse_info k payload))
   /\ ok_or_err (parse_list5 bs) /\ ok_or_err (parse_list6 bs)
   /\ ok_or_err (parse_count bs) /\ ok_or_err (parse_token7 bs)
-  /\ (forall a b, ok_or_err (snd (merge a b))).
+  /\ (forall a b, ok_or_err (snd (merge a b)))
+  /\ (forall p, Z.of_nat (length (i_clients (p_info p))) <= i32_max ->
+        ok_or_err (get_info p) /\ ok_or_err (take_info p)).
 Proof.
   intros bs H. split; [apply parse_response_total|].
   split; [intros k; apply parse_info_total, H|].
@@ -36,7 +39,7 @@ Proof.
   split; [destruct (parse_list5_ok bs) as [l ->]; exact I|].
   split; [destruct (parse_list6_ok bs) as [l ->]; exact I|].
   split; [apply parse_count_total|]. split; [apply parse_token7_total|].
-  intros a b. apply merge_total.
+  split; [intros a b; apply merge_total|]. intros p; apply get_info_total.
 Qed.
 
 (* The code as it is: two orders WITHOUT a repeated part that cover the same set of parts never
